@@ -306,6 +306,18 @@ pub fn install_quiet_panic_hook() {
     }));
 }
 
+/// Same as `new_sess` but through the deprecated `Cli::new` constructor (default prompt).
+#[allow(deprecated)]
+pub fn new_sess_deprecated(cb: usize, hb: usize, short: bool) -> Sess {
+    let mut sink = Sink::default();
+    sink.short = short;
+    let mut cli: CliT = Cli::new(sink, VBuf::new(cb), VBuf::new(hb)).expect("new cannot fail with a working sink");
+    let mut term = Term::default();
+    let evs = cli.__verif_writer_mut().take();
+    term.feed_all(&sink_bytes(&evs));
+    Sess { cli, term }
+}
+
 pub fn new_sess(cb: usize, hb: usize, prompt: &'static str, short: bool) -> Sess {
     let mut sink = Sink::default();
     sink.short = short;
